@@ -20,7 +20,7 @@ structure DI (Q : CNode K) (L : List Nat) (cur : Nat) (st : DState K) (pend : Li
   ub : UBOk δ pts K0 Q.p st.ub Off
   live : LiveOk δ pts K0 Q.p L Off (dlive st pend cur)
   leafs : ∀ e ∈ st.zero, e.node.children = []
-  sc : ∀ s, cur < s → ∀ e ∈ st.cover s, s ≤ st.maxScale ∧ e.node.scale = s ∧ e.node.children ≠ []
+  sc : ∀ s, cur < s → ∀ e ∈ st.cover s, s ≤ st.maxScale ∧ s ≤ e.node.scale ∧ e.node.children ≠ []
 
 variable {δ pts K0}
 
@@ -109,7 +109,7 @@ theorem DI.keep_cover {Q : CNode K} {L : List Nat} {cur : Nat} {st : DState K} {
       · have := h.sc _ hs e' h1
         exact ⟨Nat.le_trans this.1 (Nat.le_max_left _ _), this.2⟩
       · subst h1
-        exact ⟨Nat.le_max_right _ _, rfl, hch⟩
+        exact ⟨Nat.le_max_right _ _, Nat.le_refl _, hch⟩
     · have : e' ∈ st.cover s := by simpa [Cover.push, hse] using he'
       have := h.sc s hs e' this
       exact ⟨Nat.le_trans this.1 (Nat.le_max_left _ _), this.2⟩
@@ -235,7 +235,7 @@ theorem DI.expand {Q : CNode K} {L : List Nat} {cur : Nat} {st : DState K} {par 
 /-- **one parent** (`descendParent`): `par` is an entry of `cover_sets[cur]`, hence has children and scale `cur` -/
 theorem descendParent_DI (hm : IsMetric δ) (hK : 1 ≤ K0) {Q : CNode K} {L : List Nat} {cur : Nat} {st : DState K}
     {pend : List (DN K)} {Off : List Nat} {par : DN K} (hI : DI δ pts K0 Q L cur st (par :: pend) Off)
-    (hσ : ∀ q' ∈ L, δ Q.p q' ≤ Q.maxDist) (hparsc : par.node.scale = cur) (hparc : par.node.children ≠ []) :
+    (hσ : ∀ q' ∈ L, δ Q.p q' ≤ Q.maxDist) (hparsc : cur ≤ par.node.scale) (hparc : par.node.children ≠ []) :
     ∃ Off', DI δ pts K0 Q L cur (descendParent δ K0 Q st par) pend Off' ∧
       Step cur st (descendParent δ K0 Q st par) Off Off' := by
   have hpar : NodeOk δ pts par.node := hI.live.node par mem_dlive_head
@@ -324,7 +324,7 @@ theorem descendParent_DI (hm : IsMetric δ) (hK : 1 ≤ K0) {Q : CNode K} {L : L
 theorem descendParents_DI (hm : IsMetric δ) (hK : 1 ≤ K0) {Q : CNode K} {L : List Nat} {cur : Nat}
     (hσ : ∀ q' ∈ L, δ Q.p q' ≤ Q.maxDist) :
     ∀ (pars : List (DN K)) (st : DState K) (Off : List Nat), DI δ pts K0 Q L cur st pars Off →
-      (∀ par ∈ pars, par.node.scale = cur ∧ par.node.children ≠ []) →
+      (∀ par ∈ pars, cur ≤ par.node.scale ∧ par.node.children ≠ []) →
       ∃ Off', DI δ pts K0 Q L cur (pars.foldl (descendParent δ K0 Q) st) [] Off' ∧
         Step cur st (pars.foldl (descendParent δ K0 Q) st) Off Off'
   | [], st, Off, hI, _ => ⟨Off, hI, Step.refl _ _ _⟩
